@@ -1,13 +1,17 @@
 """C07 - finalizer ordering safety in controller-driven lifecycles."""
-import vlib, lclib
+import vlib, lclib, helperlib
 
 
 def run(ctx):
     quick = ctx.tier == "quick"
     lclib.model_check(ctx, quick)
     lclib.run(ctx, lclib.C07_WHATS, 420 if quick else 6300, 36 if quick else 50)
+    # the controllers' ordering (own finalizer on the input before the output exists, removed only after the output is gone)
+    # protects nothing unless the store refuses to remove a resource that carries a finalizer under every interleaving: the
+    # lifecycle driver serialises writes in its recording proxy, so that gate is exercised here on real threads
+    helperlib.finalizer_threads(ctx, "C07", quick)
     ctx.assumptions += ["the total order of committed writes is the one of the recording proxy (it serialises writes around the store call)",
-                        "cleanup controllers are not driven in this round (see DESIGN.md)"]
+                        "cleanup controllers: configurations 6 and 7 of the driver"]
 
 
 if __name__ == "__main__":
